@@ -27,6 +27,7 @@ type c11Layout struct {
 	WM      string `json:"wm"`  // none enc dec
 	Len     int    `json:"len"`
 	Write   bool   `json:"write"`
+	Table   int    `json:"table"`
 }
 
 func (l c11Layout) paths() (img, adj, red string) {
@@ -54,7 +55,7 @@ func TestC11(t *testing.T) {
 	r.Rule("full product of directory-name case x nesting x extension case x key placement {none, adjacent, REDKEY, both (different keys), malformed adjacent, malformed REDKEY} x watermark {none, encrypted, decrypted} x file length around 0xF70..0x1070 x {read, write}; every layout read sequentially and positionally across the watermark borders; oracle = decision table written from the statement selecting one of {identity, redump decrypt, 3k3y decrypt+mask, mask}; distinct by layout")
 	root := filepath.Join(scratchBase(), sprintf("verifh-c11-%d", os.Getpid()), "root")
 	defer os.RemoveAll(filepath.Dir(root))
-	pairs := []uint32{0, 2, 4, 5} // sector 3 encrypted
+	tables := [][]uint32{{0, 2, 4, 5}, {0, 1, 4, 5}} // sector 3 encrypted / sectors 2-3 encrypted (tail of the 3k3y area is ciphertext on disk)
 	k1, k2, kEmb := c10Keys[2], c10Keys[3], c10Keys[1]
 	lens := []int{0xF6F, 0xF70, 0x106F, 0x1070, 0x1071, 6 * 2048}
 	idx := 0
@@ -69,8 +70,14 @@ func TestC11(t *testing.T) {
 								if !r.Mine(idx) {
 									continue
 								}
-								l := c11Layout{dn, pos, ext, ks, wm, ln, wr}
-								c11Run(r, root, l, pairs, k1, k2, kEmb)
+								l := c11Layout{DirName: dn, Pos: pos, Ext: ext, Key: ks, WM: wm, Len: ln, Write: wr}
+								for ti, pairs := range tables {
+									if ti == 1 && (ln < 6*2048 || wm == "none" && ks == "none") {
+										continue
+									}
+									l.Table = ti
+									c11Run(r, root, l, pairs, k1, k2, kEmb)
+								}
 							}
 						}
 					}
